@@ -29,6 +29,8 @@ type aenv struct {
 	// hook may supply values for expressions the evaluator does not model
 	// (element loads, len(...) of runtime data)
 	hook func(e ast.Expr) (aval, bool)
+	// intBits: width of int/uint on the architecture analysed (0: 64)
+	intBits int
 }
 
 type evalErr struct{ msg string }
@@ -178,6 +180,14 @@ func (env *aenv) wrapTo(t types.Type, v aval) aval {
 		v.i = int64(uint32(v.i))
 	case types.Int32:
 		v.i = int64(int32(v.i))
+	case types.Int:
+		if env.intBits == 32 {
+			v.i = int64(int32(v.i))
+		}
+	case types.Uint, types.Uintptr:
+		if env.intBits == 32 {
+			v.i = int64(uint32(v.i))
+		}
 	}
 	return v
 }
